@@ -237,6 +237,21 @@ pub fn mkfixtures(out: &Path, commit: &str, only_variant: Option<&str>, start_in
                 write("crash-after-client-creation", "process killed after a new client's record was committed and before its first version was added: the directory holds a client without versions next to clients with history", Some(&img_at(deletes[1] + 1)))?;
             }
         }
+        if k == 0 {
+            // killed during the very first start, while the schema was being set up: after each
+            // commit of a set-up statement reached the write-ahead log (and once in mid-statement)
+            let setup_end = ranges[0].0;
+            let syncs: Vec<usize> = (0..setup_end).filter(|i| ops[*i].file.ends_with("-wal") && ops[*i].k == OpK::Sync).collect();
+            let mut cuts: Vec<usize> = syncs.iter().map(|i| i + 1).collect();
+            if let Some(first) = syncs.first() {
+                cuts.push(first / 2);
+            }
+            cuts.sort();
+            cuts.dedup();
+            for (j, c) in cuts.iter().enumerate().take(8) {
+                write("crash-during-first-start", &format!("process killed during the very first start on an empty directory, after file operation {c} of the {setup_end} the schema set-up makes (cut {j})"), Some(&img_at(*c)))?;
+            }
+        }
         if k % 3 == 0 {
             // in the middle of the checkpoint that follows (database file being written)
             let db_writes: Vec<usize> = (s..e).filter(|i| !ops[*i].file.ends_with("-wal") && matches!(ops[*i].k, OpK::Write { .. })).collect();
